@@ -8,7 +8,7 @@
 #
 import re
 
-from ural.patterns import QUERY_VALUE_IN_URL_TEMPLATE
+from ural.patterns import QUERY_VALUE_IN_URL_TEMPLATE, PROTOCOL_RE
 from ural.utils import unquote, urljoin
 
 OBVIOUS_REDIRECTS_RE = re.compile(
@@ -68,7 +68,11 @@ def infer_redirection(url, recursive=True):
             elif potential_target.startswith("/"):
                 # NOTE: the url might not be parseable
                 try:
-                    target = urljoin(url, potential_target)
+                    if PROTOCOL_RE.match(url):
+                        target = urljoin(url, potential_target)
+                    else:
+                        # NOTE: without protocol the url would be read as a path
+                        target = urljoin("http://" + url, potential_target)[7:]
                 except ValueError:
                     target = None
 
